@@ -235,3 +235,14 @@ func caseList(c map[string]interface{}, k string) []map[string]interface{} {
 	}
 	return nil
 }
+
+// readCaseJSON parses one serialised case the way readCases does (numbers stay json.Number)
+func readCaseJSON(s string) Case {
+	var c Case
+	dec := json.NewDecoder(bytesReader([]byte(s)))
+	dec.UseNumber()
+	if err := dec.Decode(&c); err != nil {
+		return nil
+	}
+	return c
+}
